@@ -288,6 +288,13 @@ validate_script(j_compress_ptr cinfo)
   if (cinfo->num_scans <= 0)
     ERREXIT1(cinfo, JERR_BAD_SCAN_SCRIPT, 0);
 
+  /* initial_setup() also checks this, but it is called after this function,
+   * which is too late to protect the per-component arrays used below.
+   */
+  if (cinfo->num_components > MAX_COMPONENTS)
+    ERREXIT2(cinfo, JERR_COMPONENT_COUNT, cinfo->num_components,
+             MAX_COMPONENTS);
+
 #ifndef C_MULTISCAN_FILES_SUPPORTED
   if (cinfo->num_scans > 1)
     ERREXIT(cinfo, JERR_NOT_COMPILED);
